@@ -17,8 +17,7 @@ ASSUMPTIONS = [
 RULE = {
     "quick": "class representatives n<=3 x all labelled graphs n<=3 over 3 node labels x 2 bond orders (ordered both ways by the calls made), each pair queried through "
     "GraphMatcherEngine.isomorphic / get_mappings (filter on/off, max_mappings None/1), SubgraphMatch.subgraph_isomorphism / is_subgraph and graph_morphism twins "
-    "(use_filter on/off, induced/monomorphism, disjoint and overlapping node ids); hcount family n<=3; all query histories of depth 2 over 4 engines x 2 operations x 16 "
-    "ordered pairs of 4 colliding graphs; non-trivial = graphs isomorphic or pattern contained",
+    "(use_filter on/off, induced/monomorphism, disjoint and overlapping node ids); hcount family n<=3; all query histories of depth 2 over 4 engines x 2 operations x ordered pairs of 4 colliding graphs and 3 graphs derived from them by copy/relabel/subgraph and then edited (derivation after the first query); non-trivial = graphs isomorphic or pattern contained",
     "thorough": "quick + representatives n<=4 (<=4 bonds) x labelled n<=3 and n<=3 x n=4 representatives; histories of depth 3 over the filter-enabled engines",
 }
 
@@ -177,13 +176,17 @@ HG = ["00/1", "01/1", "002/110", "00/2"]  # C-C ; C-C+ ; C-C(-O)... ; C=C  (labe
 ENG = [(("element", "charge"), True), (("element",), True), ((), True), (("element", "charge"), False)]
 
 
-def hist_ops(reduced):
+NG = 7  # 4 base graphs + 3 graphs derived from them (copy / relabel / subgraph) and then edited
+
+
+def hist_ops(reduced, last=False):
     ops = []
+    rng = range(NG) if last else range(4)
     for e, (attrs, wl) in enumerate(ENG):
         if reduced and not wl:
             continue
-        for i in range(4):
-            for j in range(4):
+        for i in rng:
+            for j in rng:
                 ops.append((e, "iso", i, j))
                 if not reduced:
                     ops.append((e, "map", i, j))
@@ -191,16 +194,38 @@ def hist_ops(reduced):
 
 
 def gen_hist(tier, seed):
-    ops = hist_ops(False)
-    for a in ops:
-        for b in ops:
+    first = hist_ops(False)
+    lastops = hist_ops(False, last=True)
+    for a in first:
+        for b in lastops:
+            # quick: second query involves a derived graph or the same graphs as the first
+            if tier == "quick" and max(b[2], b[3]) < 4 and not ({a[2], a[3]} & {b[2], b[3]}):
+                continue
             yield [list(a), list(b)]
     if tier != "quick":
         ops3 = hist_ops(True)
+        last3 = hist_ops(True, last=True)
         for a in ops3:
             for b in ops3:
-                for c in ops3:
+                for c in last3:
+                    if max(c[2], c[3]) < 4 and not ({a[2], a[3], b[2], b[3]} & {c[2], c[3]}):
+                        continue
                     yield [list(a), list(b), list(c)]
+
+
+def derive(graphs):
+    """New graph objects obtained from already existing (possibly already queried) ones and then edited."""
+    import networkx as nx
+
+    d0 = graphs[0].copy()  # C-C -> C-C+  (content of graph 1)
+    d0.nodes[min(d0.nodes)]["charge"] = 1
+    d1 = nx.relabel_nodes(graphs[3], {v: v + 100 for v in graphs[3].nodes}, copy=True)  # C=C -> C-C (content of graph 0)
+    for u, v in d1.edges:
+        d1[u][v]["order"] = 1.0
+    keep = sorted(graphs[2].nodes)[:2]
+    d2 = graphs[2].subgraph(keep).copy()  # two atoms of graph 2, then one becomes O
+    d2.nodes[keep[0]]["element"] = "O"
+    return graphs + [d0, d1, d2]
 
 
 def run_op(engines, graphs, op):
@@ -220,13 +245,17 @@ def check_hist(case):
         return engines, graphs
 
     engines, graphs = fresh()
-    answers = [run_op(engines, graphs, tuple(op)) for op in case]
+    for op in case[:-1]:
+        run_op(engines, graphs, tuple(op))
+    graphs = derive(graphs)  # derived objects are created after the earlier queries
+    answer = run_op(engines, graphs, tuple(case[-1]))
     fails = []
-    # the last answer must not depend on the earlier queries: same call first, on a fresh cache
+    # the last answer must not depend on the earlier queries: same call first, on a fresh cache and fresh objects
     e2, g2 = fresh()
+    g2 = derive(g2)
     alone = run_op(e2, g2, tuple(case[-1]))
-    if answers[-1] != alone:
-        fails.append(Fail("history_dependent", f"after {case[:-1]}: {answers[-1]}", f"asked first: {alone}"))
+    if answer != alone:
+        fails.append(Fail("history_dependent", f"after {case[:-1]}: {answer}", f"asked first: {alone}"))
     # and it must equal the definition
     e, kind, i, j = case[-1]
     attrs = ENG[e][0]
